@@ -214,11 +214,14 @@ Proof.
   match goal with N : dbs_norm s' = true |- _ => rename N into Ns end.
   (* the state after the candidate has been registered (or not) *)
   set (s3 := if pos_le (d_pos s') (d_pos (x_parser_bs s2)) || (d_off s' <? x_head_offs s2) then give_unit s2
+             else if c_scan_checks_unord_cap cfg && unord_full s2 then give_unit s2
              else set_retr_q (mkrjob (d_pos s') s' (Some (x_next_uid s2)) :: x_retr_q s2)
                    (set_next_uid (x_next_uid s2 + 1)
                       (set_unords (x_unords s2 ++ [mkunord (x_next_uid s2) (d_pos s') s' false false true]) s2))) in *.
   assert (I3 : inv s3 /\ x_head_offs s3 = x_head_offs s2 /\ x_scan_q s3 = x_scan_q s2).
-  { subst s3. destruct (pos_le (d_pos s') (d_pos (x_parser_bs s2)) || (d_off s' <? x_head_offs s2)) eqn:K.
+  { subst s3. destruct (pos_le (d_pos s') (d_pos (x_parser_bs s2)) || (d_off s' <? x_head_offs s2)) eqn:K;
+      [|destruct (c_scan_checks_unord_cap cfg && unord_full s2)].
+    - split; [|nrm; auto]. eapply inv_view; [|eauto]. view_tac.
     - split; [|nrm; auto]. eapply inv_view; [|eauto]. view_tac.
     - split; [|nrm; auto]. apply orb_false_iff in K. destruct K as [_ K].
       destruct I2 as [Ic Ip Ir Is Iu If Ij Il Ie Im Id Ib Iq]. unfold all_jobs, nparse in *.
